@@ -1021,7 +1021,15 @@ def R(n, need, full):
         return P(n[1], 8, full) + "(" + args_text(n[2], full) + ")"
     if t == "pipe":
         f = n[2]
-        ftxt = f[1] if f[0] == "var" else "(" + R(f, 0, full) + ")"
+        # the callee of a pipeline is a name, a member path or `(fn ...)`
+        def path(x):
+            if x[0] == "var":
+                return x[1]
+            if x[0] == "member":
+                q = path(x[1])
+                return None if q is None else q + "->" + x[2]
+            return None
+        ftxt = path(f) or "(" + R(f, 0, full) + ")"
         return P(n[1], 8, full) + " !> " + ftxt + "(" + \
             args_text(n[3], full) + ")"
     if t == "member":
